@@ -124,13 +124,12 @@ Definition probe_class (p : key * json * probe_res) : Z :=
     else 9
   end.
 Definition probes_spec (ps : list (key * json * probe_res)) : list Z := List.map probe_class ps.
-(* how the code rejected: 0 = accepted, or rejected by ValueError (the decoders' own error); 5 = by another exception class
-   on a (key, value) pair the trigger of recorded finding rejection-not-a-value-error covers; 7 = by another class, uncovered *)
+(* how the code rejected: 0 = accepted, or rejected by ValueError (the decoders' own error); 7 = by another exception class *)
 Definition probe_escape (p : key * json * probe_res) : Z :=
   match p with (k, v, r) =>
     match r with
     | POk _ => 0
-    | PRaise e => if exn_eqb e EValue then 0 else if trigger_escape k v then 5 else 7
+    | PRaise e => if exn_eqb e EValue then 0 else 7
     end
   end.
 Definition probes_escape (ps : list (key * json * probe_res)) : list Z := List.map probe_escape ps.
